@@ -1,4 +1,74 @@
+import json
+import os
+
 import shard_common
+import vf
+
+
+def _show_case(case):
+    out = []
+    for s in case:
+        a = s["a"]
+        if a == "Write":
+            out.append("Write#%d" % (s["n"] - 1))
+        elif a == "Follow":
+            out.append("Follow(commit %d)" % s["x"])
+        else:
+            out.append(a)
+    return " ".join(out)
+
+
+def _report_trim(ctx, res, label):
+    for i, mm in enumerate(res.get("mismatches") or []):
+        p = ctx.save_replay("trimreplay-%s-%d.json" % (label, i), mm)
+        import _db
+        b = _db.show_beh(mm["behaviour"])
+        ctx.violation("%s - behaviour of TrimReplay.tla: [%s]; log: [%s]" % (mm["what"][:900], _show_case(mm.get("case") or []), b[:800]), p)
+
+
+def trimreplay(ctx, quick, logs=None):
+    """spec/TrimReplay.tla: replay into a database that came back older than the first entry its trimmed log still
+    holds.  TLC checks the laws, shows that the lenient replay reader breaks them, and exports every behaviour that
+    ends with a replay; routecheck executes them on real controllers (logs = request sequences of OxiaDbMC)."""
+    import _db
+    r = ctx.tlc("TrimReplay", "trimreplay-laws.cfg" if quick else "trimreplay-laws-thorough.cfg", workers=8, label="trim-laws", heap="4g")
+    ctx.log("TrimReplay laws (writes with segment rolls, flushes, trimmer rounds with any target up to the commit offset, process kills, restart as "
+            "leader / follower with any announced commit offset): NoSkip, WithinLog, LeaderComplete, TrimBound, RefusedOnlyWithGap hold: "
+            "%d distinct states, %d transitions" % (r.distinct, r.generated))
+    rm = ctx.tlc("TrimReplay", "trimreplay-mutant-lenient.cfg", workers=4, label="trim-mutant", allow_violation=True, heap="2g")
+    if "NoSkip" not in rm.violated:
+        raise vf.Inconclusive("TrimReplay: the lenient replay reader (resume from the first available entry) does not violate NoSkip - the invariant is vacuous")
+    ctx.log("TrimReplay mutant (Lenient = TRUE: the replay reader resumes from the first available entry): TLC finds the NoSkip counterexample")
+    rc = ctx.tlc("TrimReplay", "trimreplay-cases.cfg" if quick else "trimreplay-cases-thorough.cfg", workers=4, label="trim-cases", heap="4g")
+    cases = os.path.join(ctx.scratch, "trim-cases.ndjson")
+    n = _db.export(rc, "CASE", cases)
+    if n == 0:
+        raise vf.Inconclusive("TLC exported no TrimReplay behaviours")
+    if logs is None or not os.path.exists(logs):
+        logs, _, _ = _db.tlc_export(ctx, "db-c06-runs.cfg", "RUN", "trim-logs", simulate="num=%d" % (10 if quick else 40), depth=12, workers=4)
+    binp = ctx.go_build("routecheck")
+    out = os.path.join(ctx.scratch, "trimreplay.json")
+    ctx.run([binp, "trimreplay", "-in", logs, "-cases", cases, "-out", out, "-seg", "96,128", "-max", str(600 if quick else 6000),
+             "-workers", str(max(4, min(12, ctx.cores - 2)))])
+    res = json.load(open(out))
+    ctx.replayed += res["executed"]
+    ctx.log("TrimReplay on the real code: %d behaviours exported (%d up to the segment rolls; %d restart states x replay actions decided by the "
+            "specification), %d logs from OxiaDbMC: %d executions (real RF=1 leader on %s-byte WAL segments, flush + checkpoint of its Pebble KV, real "
+            "trimmer round, kill = database image of the last flush + WAL files, real leader / follower controller on them): %d restarted with entries "
+            "missing between database and log, %d refusals observed, %d of the %d decided restart states met; segment layouts seen: %d; %d mismatch "
+            "class(es), %d disagreement(s) that do not break the property, %d execution(s) outside the exported behaviours" %
+            (res["cases"], res["jobs"], res["table"], res["sequences"], res["executed"], "96/128", res["gap"], res["refused"], res["covered"], res["table"],
+             len(res.get("layouts") or {}), len(res.get("mismatches") or []), res["disagreements"], res["off_model"]))
+    for note in (res.get("notes") or [])[:5]:
+        ctx.log("  note: " + note[:400])
+    _report_trim(ctx, res, "cases")
+    if not res.get("mismatches") and (res["gap"] == 0 or res["refused"] == 0):
+        raise vf.Inconclusive("TrimReplay: no execution restarted with entries missing between the database and the log (gap=%d, refusals=%d) - "
+                              "the segment sizes no longer split the logs" % (res["gap"], res["refused"]))
+    if res.get("sample"):
+        ctx.samples.append({"kind": "TrimReplay behaviours executed on real controllers: observed restart state, outcome, what the specification prescribes",
+                            "executions": res["sample"][:4]})
+    return res
 
 
 def run(ctx):
@@ -8,13 +78,47 @@ def run(ctx):
     # the fold of entries 0..c, c = the commit offset stored in the image; replay of c+1.. gives the whole log
     import c06
     c06.crashpoints_standalone(ctx, quick)
+    # replay resumes at exactly c+1, also when the log no longer holds c+1: the database image of a killed node
+    # is older than what the trimmer (bounded by the in-memory commit offset) left of the log
+    ctx.assumptions += [
+        "TrimReplay: the database image a process kill leaves is the last flush (Pebble runs without a WAL of its own; flush + checkpoint of the real KV "
+        "taken at the flush points the behaviour chooses); the WAL files are copied while the node runs",
+        "TrimReplay: where the real WAL opens a new segment depends on entry sizes; the specification enumerates every layout, the expected outcome is "
+        "looked up with the restart state observed on the real node (entries, database commit offset, first offset of the reopened WAL)",
+        "TrimReplay: the trimmer is run with every entry older than the retention (its target is the commit offset the controller reports)",
+    ]
+    deferred = None
+    try:
+        trimreplay(ctx, quick, logs=os.path.join(ctx.scratch, "crash-mixed.ndjson"))
+    except vf.Inconclusive as e:
+        # (the replication part below must still get its chance to decide the property on this tree)
+        deferred = e
+        ctx.log("TrimReplay part inconclusive: %s" % str(e)[:500])
     shard_common.run(ctx, "C07")
+    if deferred is not None:
+        raise deferred
 
 
 def replay(ctx, path):
-    import json
     d = json.load(open(path))
     if isinstance(d, dict) and d.get("kind") == "crash":
         import c06
         return c06.replay(ctx, path)
+    if isinstance(d, dict) and d.get("kind") == "trimreplay":
+        import _db
+        path = os.path.abspath(path)
+        rc = ctx.tlc("TrimReplay", "trimreplay-cases-thorough.cfg", workers=4, label="trim-cases", heap="4g")
+        cases = os.path.join(ctx.scratch, "trim-cases.ndjson")
+        _db.export(rc, "CASE", cases)
+        binp = ctx.go_build("routecheck")
+        out = os.path.join(ctx.scratch, "trimreplay-rerun.json")
+        ctx.run([binp, "trimreplay", "-rerun", path, "-cases", cases, "-out", out, "-workers", "1"])
+        res = json.load(open(out))
+        if res["executed"] == 0:
+            raise vf.Inconclusive("the behaviour of the replay file was not executed")
+        _report_trim(ctx, res, "rerun")
+        if not res.get("mismatches"):
+            ctx.log("re-executed: the restarted node's database is the result of applying the entries up to its commit offset (%s)" %
+                    json.dumps((res.get("sample") or [{}])[0]))
+        return
     shard_common.replay_file(ctx, "C07", path)
